@@ -17,7 +17,8 @@
 //          9 b = a, b communicates, then a is observed; 10 construction from std::move(original); 11 std::swap(a, b) with a
 //          communicator over another map/buffer, the swapped-in one is observed; 12 the interface map is rebuilt in place
 //          between two communications; 13 the same object first used with a handle of the other kind (fixed<->variable)
-//          and another DataType
+//          and another DataType; 14 the same object first used with handles of the same kind but OTHER sizes (opposite
+//          direction: one size per rank; same direction: every size s -> s % buf + 1), then observed
 //     t  additionally 5 long double, 6 std::complex<double>, 7 Dune::FieldVector<double,2>
 //     mb = value of DUNE_PARALLEL_MAX_COMMUNICATION_BUFFER_SIZE the binary must have been compiled with (0: undefined);
 //          a case whose mb differs from the binary's prints BADCASE
@@ -110,7 +111,9 @@ struct RecHandle
   template<class B> void scatter(B& buf, std::size_t i, std::size_t n)
   {
     Call c; c.idx = (long) i; c.n = (long) n;
-    if (n <= 400000) for (std::size_t k = 0; k < n; ++k) { T v; buf.read(v); c.items.push_back(Codec<T>::dec(v)); }
+    // the count is recorded exactly as told; items are read only while the message buffer has any left (a wrong count must
+    // not turn into an out-of-bounds read of the driver: it shows up as a wrong n and a short/shifted item list)
+    if (n <= 400000) for (std::size_t k = 0; k < n && buf.hasSpaceForItems(1); ++k) { T v; buf.read(v); c.items.push_back(Codec<T>::dec(v)); }
     log.push_back(c);
   }
 };
@@ -134,7 +137,7 @@ struct RecHandleC
   template<class B> void scatter(B& buf, int i, unsigned n) const
   {
     Call c; c.idx = (long) i; c.n = (long) n;
-    if (n <= 400000) for (unsigned k = 0; k < n; ++k) { T v; buf.read(v); c.items.push_back(Codec<T>::dec(v)); }
+    if (n <= 400000) for (unsigned k = 0; k < n && buf.hasSpaceForItems(1); ++k) { T v; buf.read(v); c.items.push_back(Codec<T>::dec(v)); }
     log.push_back(c);
   }
 };
@@ -213,6 +216,20 @@ template<class Map> static void free_map(Map& imap) { for (auto& kv : imap) { kv
 // the transposed interface (first and second list exchanged)
 static Case transposed(const Case& c) { Case t = c; for (auto& e : t.es) std::swap(e.first, e.second); t.dir = 1 - c.dir; t.seed = c.seed ? c.seed + 1 : 0; return t; }
 
+// handle of a warm-up communication (not observed): same kind and DataType as h, OTHER sizes.
+//   variant 0 (any direction): fixed-size -> one size per rank, rank-dependent, 1..min(buf,3) (h's sizes are only guaranteed to
+//                              be homogeneous on the send lists of the case's own direction); variable-size -> h's sizes
+//   variant 1 (the case's direction): every size s -> s % buf + 1 (homogeneous lists stay homogeneous, 1 <= size <= buf)
+template<class H>
+static H warm_handle(const H& h, const Case& c, int variant)
+{
+  H w = h; w.log.clear();
+  const long cap = c.buf < 3 ? (c.buf < 1 ? 1 : c.buf) : 3;
+  if (variant == 0) { if (h.fixed) for (auto& x : w.sizes) x = 1 + (h.rank + c.NI) % cap; }
+  else for (auto& x : w.sizes) x = x % (c.buf < 1 ? 1 : c.buf) + 1;
+  return w;
+}
+
 template<class VSC, class H>
 static void communicate(VSC& comm, H& h, const Case& c, int tmo)
 {
@@ -250,12 +267,12 @@ static void special_members(const Case& c, MPI_Comm cm, const Dune::VariableSize
     communicate(b, h, c, tmo);
   } else if (c.v == 8) {
     VSC orig(cm, imap, buf);
-    { const VSC& corig = orig; VSC copy(corig); H warm = h; communicate(copy, warm, w, tmo); }   // copy used and destroyed
+    { const VSC& corig = orig; VSC copy(corig); H warm = warm_handle(h, c, 0); communicate(copy, warm, w, tmo); }   // copy used and destroyed
     communicate(orig, h, c, tmo);      // the source of the copy must be unaffected
   } else if (c.v == 9) {
     VSC::InterfaceMap other;
     VSC a(cm, imap, buf);
-    { VSC b(cm, other, 1); const VSC& ca = a; b = ca; H warm = h; communicate(b, warm, w, tmo); }
+    { VSC b(cm, other, 1); const VSC& ca = a; b = ca; H warm = warm_handle(h, c, 0); communicate(b, warm, w, tmo); }
     communicate(a, h, c, tmo);         // the source of the assignment must be unaffected
   } else if (c.v == 10) {
     VSC* orig = new VSC(cm, imap, buf);
@@ -316,8 +333,14 @@ static void run_case(const Case& c, int rank, MPI_Comm cm, int tmo, std::vector<
 #endif
     } else if (c.v == 6) {
       VSC comm(cm, imap, buf);
-      { H warm = h; Case w = c; w.dir = 1 - c.dir; w.seed = c.seed ? c.seed + 1 : 0; communicate(comm, warm, w, tmo); }
+      { H warm = warm_handle(h, c, 0); Case w = c; w.dir = 1 - c.dir; w.seed = c.seed ? c.seed + 1 : 0; communicate(comm, warm, w, tmo); }
       communicate(comm, h, c, tmo);      // trace restarts: only the second communication is observed
+    } else if (c.v == 14) {
+      // object history: the same object used with handles of the SAME kind but other (fixed) sizes, in both directions, first
+      VSC comm(cm, imap, buf);
+      { H warm = warm_handle(h, c, 0); Case w = c; w.dir = 1 - c.dir; w.seed = c.seed ? c.seed + 1 : 0; communicate(comm, warm, w, tmo); }
+      { H warm = warm_handle(h, c, 1); Case w = c; w.seed = c.seed ? c.seed + 2 : 0; communicate(comm, warm, w, tmo); }
+      communicate(comm, h, c, tmo);
     } else if (c.v == 13) {
       // the same object first with a handle of the other kind and another DataType: fixed size 1 <-> variable sizes
       VSC comm(cm, imap, buf);
@@ -361,7 +384,7 @@ int main(int argc, char** argv)
   while (std::getline(in, line)) {
     ++g_case;
     Case c;
-    bool ok = parse(line, c) && c.P >= 1 && c.P <= np && c.mb == BINARY_MB && c.v >= 0 && c.v <= 13 && c.t >= 0 && c.t <= 7 && c.k >= 0 && c.k <= 4 && (c.k != 4 || c.P == 1) && (c.hk == 0 || c.t <= 1);
+    bool ok = parse(line, c) && c.P >= 1 && c.P <= np && c.mb == BINARY_MB && c.v >= 0 && c.v <= 14 && c.t >= 0 && c.t <= 7 && c.k >= 0 && c.k <= 4 && (c.k != 4 || c.P == 1) && (c.hk == 0 || c.t <= 1);
     std::vector<long> ser;           // serialised log of this rank: idx n nitems items...
     std::vector<long> tr;            // dest count pairs
     bool skipped = false;
